@@ -49,7 +49,7 @@ HintedOf(U, n) == IF ~U.pkg[n].exists THEN {}
 GRP0 == [id |-> 0, kind |-> "", sol |-> <<>>, msg |-> "", calls |-> <<>>, profile |-> ""]
 BB0 == [callseq |-> <<>>, dcalls |-> {}, ccalls |-> {}, dret |-> {}, cret |-> {}, kreqs |-> {}, knames |-> {},
         cancelSeen |-> FALSE, cancelVal |-> 0, prevSolves |-> 0, callsThisSolve |-> 0]
-WB0 == [cls |-> <<>>, nlearnt |-> 0, trail |-> <<>>, lv |-> <<>>, why |-> <<>>, base |-> 0, unsat |-> 0, nrestart |-> 0, softlearnt |-> 0, A |-> {}, vsolv |-> <<>>, vhelp |-> <<>>, on |-> FALSE]
+WB0 == [cls |-> <<>>, nlearnt |-> 0, trail |-> <<>>, lv |-> <<>>, why |-> <<>>, base |-> 0, unsat |-> 0, nrestart |-> 0, softlearnt |-> 0, inst |-> {}, A |-> {}, vsolv |-> <<>>, vhelp |-> <<>>, on |-> FALSE]
 
 Init == /\ l = 1
         /\ ctx = [id |-> -1, k |-> 0, begin |-> 0]
@@ -286,7 +286,8 @@ Assign ==
                        /\ Chk("C02", \A y \in c.lits \ {x} : LvlOfVar(y[1]) <= Rec[l].lvl,
                              "C02_ImpliedBelowAntecedent", <<Rec[l].v, Rec[l].lvl, Rec[l].why>>)
                   ELSE TRUE))
-     /\ wb' = [wb EXCEPT !.trail = Append(wb.trail, x), !.lv = Append(wb.lv, Rec[l].lvl), !.why = Append(wb.why, Rec[l].why), !.A = wb.A \cup {x}]
+     /\ wb' = [wb EXCEPT !.trail = Append(wb.trail, x), !.lv = Append(wb.lv, Rec[l].lvl), !.why = Append(wb.why, Rec[l].why), !.A = wb.A \cup {x},
+                        !.inst = IF Rec[l].tag = "install" THEN wb.inst \cup {Rec[l].v} ELSE wb.inst]
 
 Undo ==
   /\ E("undo") /\ UNCHANGED <<ctx, bb, grp>>
@@ -384,7 +385,10 @@ ForbidRecs == {c \in ClauseRecs : c.kind = "forbid"}
 HelperLits(FR, v) == UNION {LitSet(c.lits) \ {<<v, 0>>} : c \in {d \in FR : d.a = v}}
 UnexcludedPairs ==
   LET FR == ForbidRecs
+      \* ... and the soft requirements that were installed at some point (directly, without
+      \* being anybody's candidate)
       cv == UNION {Range(Concat(c.cands)) : c \in {d \in ClauseRecs : d.kind = "requires"}}
+            \cup (wb.inst \ {0})
       hl == [v \in cv |-> HelperLits(FR, v)]
   IN {pr \in cv \X cv : /\ pr[1] < pr[2]
                         /\ NameOf(u, SolvOfVar(pr[1])) = NameOf(u, SolvOfVar(pr[2]))
